@@ -639,8 +639,11 @@ def check(prop, tier, keep=False, only=None):
                     results[h.name] = res[h.name]
             # counterexample vectors for failed contract harnesses (one at a time, at most three)
             nplay = 0
+            known0 = load_known()
             for h in fh:
                 r = results.get(h.name)
+                if r and r["status"] == "failed" and match_known(known0, prop, h.name, [fc["description"] for fc in r["failed_checks"]]):
+                    continue  # a listed known finding: no counterexample needed again
                 if r and r["status"] == "failed" and h.expect != "fail" and nplay < 3:
                     nplay += 1
                     res2, out2, cmd2, rc2, wall2 = run_kani(scratch, flavour, [h], 1, playback=True)
@@ -662,6 +665,7 @@ def check(prop, tier, keep=False, only=None):
         known_hits = []
         obligations = 0
         discharged = 0
+        known_failed = 0
         per_harness = []
         canaries = []
         solver_s = 0.0
@@ -707,6 +711,10 @@ def check(prop, tier, keep=False, only=None):
                 k = match_known(known, prop, h.name, [fc["description"] for fc in real])
                 if k:
                     known_hits.append((k, h.name, descs))
+                    # the listed obligations are reported as KNOWN-FINDING, not as discharged and
+                    # not as part of the proof claim
+                    obligations -= r["failed"]
+                    known_failed += r["failed"]
                     continue
                 violations.append((h, r, descs))
             else:
@@ -795,6 +803,7 @@ def check(prop, tier, keep=False, only=None):
                 "back_ends": sorted(set(e["back_end"] for e in per_harness)),
                 "assume_scan": scan_assumptions(),
                 "known_findings_reported": [k["id"] for (k, _, _) in known_hits],
+                "known_finding_obligations_not_discharged": known_failed,
                 "undecided": undecided,
                 "results_reused_from_identical_input_run": reused,
                 "input_digest": digest[:32],
